@@ -33,6 +33,13 @@ REPLAY_PY = "/venv/bin/python"
 MAX_REPLAYS = int(os.environ.get("PYVC_MAX_REPLAYS", "4"))
 
 
+def iname(con):
+    """the name obligations of this contract are identified by (baseline,
+    known findings): the function, unless the contract asks for its own
+    name (two variants of one function that must not share identifiers)"""
+    return con.extra.get("ident_name") or con.func
+
+
 def baseline_path(pid):
     return os.path.join(VERIF, "baseline", f"{pid}.json")
 
@@ -104,7 +111,7 @@ def solve_one(idx):
     # get a small budget (bounds the run time on a broken tree; irrelevant
     # on a tree where everything discharges)
     hurry = _GEN["found"].value >= 3 and o.kind != "interrupt_inv"
-    ident0 = f"{r.contract.func}::{stable_name(o)}"
+    ident0 = f"{iname(r.contract)}::{stable_name(o)}"
     known_here = ident0 in _GEN.get("known", ()) and _GEN.get("tier") == \
         "quick"
     listed_clauses = _GEN.get("known_clauses", {}).get(ident0)
@@ -163,7 +170,7 @@ def solve_one(idx):
                       use_cvc5=not hurry, refute=not hurry)
     except Exception as e:
         o.status, o.note = "unknown", f"solver error: {e!r}"
-    ident = f"{r.contract.func}::{stable_name(o)}"
+    ident = f"{iname(r.contract)}::{stable_name(o)}"
     in_base = ident in _GEN.get("baseline", ())
     if not in_base and "@#" in ident:
         # the statement the obligation is attached to was edited (its text
@@ -235,6 +242,7 @@ def verify_all(cons, tier, pid, jobs):
         st = r.stats
         out.append({
             "file": con.file, "func": con.func, "ckey": con.key[1],
+            "iname": iname(con),
             "obls": [solved[(fi, oi)] for oi in range(len(r.obls))],
             "undecided": r.undecided, "errors": r.errors, "paths": r.paths,
             "time_gen": r.time_gen,
@@ -321,7 +329,7 @@ def report(a, seed, cons, results, extra, t_start):
             errors.append(f"{r['func']}: zero obligations generated")
         for o in r["obls"]:
             obls += 1
-            ident = f"{r['func']}::{o['stable']}"
+            ident = f"{r.get('iname', r['func'])}::{o['stable']}"
             if o["kind"] == "interrupt_inv":
                 # one finding per statement, whatever clause fails there
                 ident = re.sub(r"\[\d+\]$", "", ident)
@@ -500,7 +508,8 @@ def report(a, seed, cons, results, extra, t_start):
             for r in results:
                 for o in r["obls"]:
                     if o["status"] == "discharged":
-                        names.add(f"{r['func']}::{o['stable']}")
+                        names.add(f"{r.get('iname', r['func'])}::"
+                                  f"{o['stable']}")
             os.makedirs(os.path.join(VERIF, "baseline"), exist_ok=True)
             with open(baseline_path(pid), "w") as fh:
                 json.dump({"property": pid, "discharged": sorted(names)},
